@@ -294,12 +294,187 @@ def converse_from_path(m, path, script, scheme, cfg=None):
     return None, {"path": path, "url": url}
 
 
+# ------------------------------------------------------------------ cross-host / cross-subdomain builds (round 3)
+# _partial_build prefers, among the suitable rules of an endpoint, the one that builds to the adapter's OWN host
+# and otherwise falls back to the FIRST suitable one (build order: most specific defaults first).  So an endpoint
+# with a defaults chain, or with one rule per host, has to be built from adapters bound to every host / subdomain
+# of the map and to an unrelated one.
+
+def rules_hostdef():
+    return [
+        Rule("/list/", defaults={"page": 1}, endpoint="hl", host="www.example.com"),
+        Rule("/list/<int:page>", endpoint="hl", host="www.example.com"),
+        Submount("/v1", [
+            Rule("/feed/", defaults={"page": 1, "per": 10}, endpoint="hf", host="<tenant>.example.net"),
+            Rule("/feed/<int:page>", defaults={"per": 10}, endpoint="hf", host="<tenant>.example.net"),
+            Rule("/feed/<int:page>/<int:per>", endpoint="hf", host="<tenant>.example.net"),
+        ]),
+        Rule("/about/<v>", endpoint="ha", host="admin.example.com"),
+        # one endpoint served on two hosts: built on the adapter's own host if it is one of them, else on the first
+        Rule("/x/<v>", endpoint="hx", host="a.example.com"),
+        Rule("/x/<v>", endpoint="hx", host="b.example.com"),
+    ]
+
+
+def rules_subdef():
+    return [
+        Rule("/list/", defaults={"page": 1}, endpoint="sl", subdomain="www"),
+        Rule("/list/<int:page>", endpoint="sl", subdomain="www"),
+        Subdomain("<tenant>", [Submount("/v1", [
+            Rule("/feed/", defaults={"page": 1, "per": 10}, endpoint="sf"),
+            Rule("/feed/<int:page>", defaults={"per": 10}, endpoint="sf"),
+            Rule("/feed/<int:page>/<int:per>", endpoint="sf"),
+        ])]),
+        Rule("/about/<v>", endpoint="sa", subdomain="admin"),
+        Rule("/home/<v>", endpoint="sh"),
+    ]
+
+
+_FEED = [(1, 10), (3, 10), (1, 25), (4, 50), (10, 10)]
+CROSS = {
+    # cfg: (rules, map kwargs, bound hosts / subdomains, {endpoint: (list of value dicts, owner(values, bound))})
+    "hostdef": (rules_hostdef, {"host_matching": True},
+                ["www.example.com", "acme.example.net", "admin.example.com", "a.example.com", "b.example.com",
+                 "other.example.org"],
+                {"hl": ([{"page": n} for n in (1, 2, 0, 10)], lambda v, b: {"www.example.com"}),
+                 "hf": ([{"tenant": "acme", "page": a, "per": c} for a, c in _FEED], lambda v, b: {"acme.example.net"}),
+                 "ha": ([{"v": x} for x in ("a", "café au lait", "a;b?c#d", "%2F")], lambda v, b: {"admin.example.com"}),
+                 "hx": ([{"v": x} for x in ("a", "é b")],
+                        lambda v, b: {b} if b in ("a.example.com", "b.example.com") else {"a.example.com"})}),
+    "subdef": (rules_subdef, {},
+               ["", "www", "acme", "admin", "zzz"],
+               {"sl": ([{"page": n} for n in (1, 2, 0, 10)], lambda v, b: {"www"}),
+                "sf": ([{"tenant": "acme", "page": a, "per": c} for a, c in _FEED], lambda v, b: {"acme"}),
+                "sa": ([{"v": x} for x in ("a", "café au lait", "a;b?c#d")], lambda v, b: {"admin"}),
+                "sh": ([{"v": x} for x in ("a", "é b")], lambda v, b: {""})}),
+}
+# canonical URLs a client may request directly: (owner, path) -> what it denotes
+CROSS_PATHS = {
+    "hostdef": [("www.example.com", "/list/", ("hl", {"page": 1})), ("www.example.com", "/list/7", ("hl", {"page": 7})),
+                ("acme.example.net", "/v1/feed/", ("hf", {"tenant": "acme", "page": 1, "per": 10})),
+                ("acme.example.net", "/v1/feed/7", ("hf", {"tenant": "acme", "page": 7, "per": 10})),
+                ("acme.example.net", "/v1/feed/7/5", ("hf", {"tenant": "acme", "page": 7, "per": 5})),
+                ("admin.example.com", "/about/k", ("ha", {"v": "k"}))],
+    "subdef": [("www", "/list/", ("sl", {"page": 1})), ("www", "/list/7", ("sl", {"page": 7})),
+               ("acme", "/v1/feed/", ("sf", {"tenant": "acme", "page": 1, "per": 10})),
+               ("acme", "/v1/feed/7", ("sf", {"tenant": "acme", "page": 7, "per": 10})),
+               ("", "/home/a", ("sh", {"v": "a"}))],
+}
+
+
+def _cross_bind(m, cfg, where, script, scheme):
+    if cfg == "hostdef":
+        return m.bind(where, script_name=script, url_scheme=scheme), where
+    return m.bind(SERVER, script_name=script, subdomain=where, url_scheme=scheme), (where + "." if where else "") + SERVER
+
+
+def cross_round_trip(m, cfg, ep, values, bound, script, fe, scheme):
+    owner_of = CROSS[cfg][3][ep][1]
+    builder, bhost = _cross_bind(m, cfg, bound, script, scheme)
+    try:
+        url = builder.build(ep, dict(values), force_external=fe)
+    except Exception as e:  # noqa: BLE001
+        return "build-exception:" + type(e).__name__, {"error": repr(e)}
+    d = deliver(url, scheme, script)
+    if len(d) == 2:
+        return "url-" + d[0], {"url": url, "detail": d[1]}
+    host, pi, _query = d
+    dest = host if host is not None else bhost
+    if fe and host is None:
+        return "not-external", {"url": url}
+    if host is not None and host == bhost and not fe:
+        return "external-without-need", {"url": url}
+    if cfg == "hostdef":
+        where = dest
+    elif dest == SERVER:
+        where = ""
+    elif dest.endswith("." + SERVER):
+        where = dest[: -len(SERVER) - 1]
+    else:
+        return "url-host", {"url": url, "host": dest}
+    if where not in owner_of(values, bound):
+        return "wrong-host", {"url": url, "expected": sorted(owner_of(values, bound))}
+    server, _h = _cross_bind(m, cfg, where, script, scheme)
+    try:
+        got = server.match(pi)
+    except RequestRedirect as e:
+        return "match-redirect", {"url": url, "path_info": pi, "to": e.new_url}   # build gave a non-canonical URL
+    except HTTPException as e:
+        return "match-" + type(e).__name__, {"url": url, "path_info": pi}
+    if got[0] != ep or not same_values(dict(got[1]), values):
+        return "values-differ", {"url": url, "path_info": pi, "got": (got[0], dict(got[1]))}
+    try:
+        url2 = builder.build(got[0], dict(got[1]), force_external=fe)
+    except Exception as e:  # noqa: BLE001
+        return "rebuild-exception:" + type(e).__name__, {"url": url, "error": repr(e)}
+    if url2 != url:
+        return "converse", {"url": url, "url2": url2}
+    return None, {"url": url, "path_info": pi, "crossed": dest != bhost}
+
+
+def cross_converse(m, cfg, owner, path, want, bound, script, scheme):
+    """match the canonical path on its owner, rebuild it from an adapter bound anywhere: same URL."""
+    server, ohost = _cross_bind(m, cfg, owner, script, scheme)
+    try:
+        ep, values = server.match(path)
+    except HTTPException as e:
+        return "path-does-not-match:" + type(e).__name__, {"path": path}
+    if ep != want[0] or not same_values(dict(values), want[1]):
+        return "path-denotes-something-else", {"path": path, "matched": (ep, dict(values))}
+    builder, _b = _cross_bind(m, cfg, bound, script, scheme)
+    try:
+        url = builder.build(ep, dict(values), force_external=True)
+    except Exception as e:  # noqa: BLE001
+        return "rebuild-exception:" + type(e).__name__, {"path": path, "error": repr(e)}
+    expect = f"{scheme}://{ohost}{script.rstrip('/')}{path}"
+    if url != expect:
+        return "converse-from-path", {"path": path, "matched": (ep, dict(values)), "rebuilt": url, "expected": expect}
+    return None, {"url": url}
+
+
+def run_cross(unit, R):
+    _tag, cfg, script, _n = unit
+    factory, kw, bounds, eps = CROSS[cfg]
+    m = Map(factory(), **kw)
+    R.use("cross:" + cfg)
+    for scheme in ("http", "https"):
+        for bound in bounds:
+            for ep, (vals, _owner) in eps.items():
+                for values in vals:
+                    for fe in (False, True):
+                        problem, info = cross_round_trip(m, cfg, ep, values, bound, script, fe, scheme)
+                        R.ev()
+                        R.outcome((ep, "cross", problem))
+                        if problem is None:
+                            R.nontrivial((cfg, ep, repr(values), bound, fe))
+                            R.use("cross-crossed" if info["crossed"] else "cross-home")
+                        else:
+                            R.violation(f"cross:{problem.split(':')[0]}",
+                                        {"kind": "cross", "cfg": cfg, "endpoint": ep, "values": values, "bound": bound,
+                                         "script": script, "fe": fe, "scheme": scheme, "problem": problem,
+                                         "info": {k: repr(x) for k, x in info.items()}})
+            for owner, path, want in CROSS_PATHS[cfg]:
+                problem, info = cross_converse(m, cfg, owner, path, want, bound, script, scheme)
+                R.ev()
+                R.outcome(("cross-converse", problem))
+                if problem is None:
+                    R.use("cross-converse")
+                else:
+                    R.violation(f"cross-converse:{problem.split(':')[0]}",
+                                {"kind": "cross-converse", "cfg": cfg, "owner": owner, "path": path, "bound": bound,
+                                 "script": script, "scheme": scheme, "problem": problem,
+                                 "info": {k: repr(x) for k, x in info.items()}})
+
+
 def units(tier):
     vs = value_sets(tier)
     out = []
     for cfg in CONVERSE_PATHS:
         for script in SCRIPTS:
             out.append(("@converse", cfg, script, None))
+    for cfg in CROSS:
+        for script in SCRIPTS:
+            out.append(("@cross", cfg, script, None))
     size = 150 if tier == "quick" else 400
     for cfg, (_f, _kw, eps) in CONFIGS.items():
         for ep in eps:
@@ -457,6 +632,8 @@ def plain_url(ep, values, url):
 
 
 def run_unit(unit, R, tier):
+    if unit[0] == "@cross":
+        return run_cross(unit, R)
     if unit[0] == "@converse":
         _tag, cfg, script, _none = unit
         factory, kw, _eps = CONFIGS[cfg]
@@ -540,7 +717,8 @@ def dec_value(v):
 def finalize(R, tier):
     need = ({"cfg:" + c for c in CONFIGS} | {"ep:" + e for _f, _k, eps in CONFIGS.values() for e in eps}
             | {"script:" + s for s in SCRIPTS} | {"quoted", "crossed-host", "query", "external", "converse-from-path"}
-            | {"mode:" + x for x in MODES})
+            | {"mode:" + x for x in MODES} | {"cross:" + c for c in CROSS}
+            | {"cross-crossed", "cross-home", "cross-converse"})
     missing = need - R.used
     if missing:
         raise core.Broken(f"vacuity: never exercised {sorted(missing)}")
@@ -551,6 +729,21 @@ def finalize(R, tier):
 
 
 def replay(rec):
+    if rec.get("kind") in ("cross", "cross-converse"):
+        factory, kw, _b, _e = CROSS[rec["cfg"]]
+        m = Map(factory(), **kw)
+        if rec["kind"] == "cross":
+            problem, info = cross_round_trip(m, rec["cfg"], rec["endpoint"], dict(rec["values"]), rec["bound"],
+                                             rec["script"], rec["fe"], rec["scheme"])
+            head = (f"config={rec['cfg']} build({rec['endpoint']!r}, {dict(rec['values'])!r}, force_external={rec['fe']}) "
+                    f"from an adapter bound to {rec['bound']!r} script_name={rec['script']!r} scheme={rec['scheme']}")
+        else:
+            want = next(w for o, p_, w in CROSS_PATHS[rec["cfg"]] if o == rec["owner"] and p_ == rec["path"])
+            problem, info = cross_converse(m, rec["cfg"], rec["owner"], rec["path"], want, rec["bound"], rec["script"],
+                                           rec["scheme"])
+            head = (f"config={rec['cfg']} match({rec['path']!r}) on {rec['owner']!r}, rebuilt (force_external) from an "
+                    f"adapter bound to {rec['bound']!r} script_name={rec['script']!r}")
+        return problem is not None, f"{head}\nproblem={problem}\ninfo={info}"
     if rec.get("kind") == "converse":
         factory, kw, _eps = CONFIGS[rec["cfg"]]
         problem, info = converse_from_path(Map(factory(), **kw), rec["path"], rec["script"], rec["scheme"], rec["cfg"])
